@@ -95,7 +95,7 @@ func propC05(c *Ctx) {
 	ruleRollbackBoundary(c, rrb)
 	rls := c.Rule("loop-stutter", "no loop of the scanner, parser, optimizer or compiler has an effect-free cycle on which every loop variable keeps its value (Compile terminates: a necessary condition only)", 1)
 	ruleLoopStutter(c, rls, l.RepoFuncs(func(p string) bool { return p == modPath || p == modPath+"/parser" || p == modPath+"/token" }), 60)
-	rgo := c.Rule("global-operand-interned", "every emitted OpGetGlobal / OpSetGlobal takes its operand from interning the global's name in the constants of the current compilation: Bytecode from a re-used symbol table (an Eval session after a fragment that failed to compile) stays well formed", 3)
+	rgo := c.Rule("global-operand-interned", "every emitted OpGetGlobal / OpSetGlobal takes its operand from interning the global's name in the constants of the current compilation: Bytecode from a re-used symbol table (an Eval session after a fragment that failed to compile) stays well formed", 1)
 	ruleGlobalOperandInterned(c, rgo)
 	rtw := c.Rule("trace-writer-guard", "every write to a trace writer field of the compiler / optimizer lies behind a test that the field is not nil (the Trace* flags are independent of the writer)", 6)
 	ruleTraceWriterGuard(c, rtw)
